@@ -143,6 +143,8 @@ func VH_C06_kill_subtree() {
 		vrtAssert(err != nil, "duplicate-name-spawn-is-rejected")
 		_, still := p.children[kids[0].ref.GetPath()]
 		vrtAssert(still, "rejected-spawn-leaves-the-live-child-registered")
+		reg, ok := w.sys.actorContexts.Load(kids[0].ref.GetPath())
+		vrtAssert(ok && reg == any(kids[0]), "rejected-spawn-leaves-the-live-child-registered")
 		vrtReach("rejected-duplicate-spawn")
 	}
 	poison := vrtBool()
